@@ -375,6 +375,8 @@ def seegerbeste_terms(o):
     law, (E, K, n, Kp) = sb_params(o)
     s, L = o.reals('sigma L')
     PI = z3.Real('PI')
+    # f divides by middle * Neuber: zero only where eq. 2.8-42 itself is undefined (not part of the statement)
+    o.safety_exempt = list(getattr(o, 'safety_exempt', [])) + ['divisor']
     for tag in sign_cases(o, s, L):
         kind = 'series'
         for suffix, strain_of, estar_of in (('', lambda x: eps(E, K, n, x), lambda x: eps(E, K, n, x / Kp)),
@@ -397,7 +399,14 @@ def seegerbeste_terms(o):
             midspec = (2 / (uu * uu)) * ln(1 / cos_(uu)) + (s / L) * (s / L) - (s / L)
             o.prove(f'{br}: middle term == 2/u^2 ln(1/cos u) + (sigma/L)^2 - sigma/L [{tag}]', mid.t == midspec, pairs=False)
             f = o.run1(lambda: call(o, law, '_stress' + suffix + '_implicit', SV(s, kind=kind), SV(L, kind=kind)), label=f'_stress{suffix}_implicit[{tag}]')
-            o.prove(f'{br}: f == eps(sigma) / (middle * Neuber) - 1 [{tag}]', f.t == strain_of(s) / (midspec * ((L / s) * Kp * estar_of(L))) - 1, pairs=False)
+            # composition: the sub-terms of f that are the middle term and the Neuber term are rewritten by the two equalities proved above (z3.substitute,
+            # structural); what remains to be shown is the Ramberg-Osgood part and the arrangement eps / (middle * Neuber) - 1
+            nspec = (L / s) * Kp * estar_of(L)
+            f_sub = z3.substitute(f.t, (mid.t, midspec), (nst.t, nspec))
+            o.shape(f'{br}: f contains the middle term and the Neuber term as computed by the helper functions [{tag}]', not f_sub.eq(f.t), 'no sub-term rewritten')
+            sign_hyps = [h for h in o.hyps if any(h.eq(c) for c in (s > 0, s < 0, L > 0, L < 0))]
+            o.prove(f'{br}: f == eps(sigma) / (middle * Neuber) - 1 [{tag}]', f_sub == strain_of(s) / (midspec * nspec) - 1, pairs=False,
+                    only=[E > 0, K > 0, n > 0, n < 1, Kp > 1] + sign_hyps)
             g = o.run1(lambda: call(o, law, '_load' + suffix + '_implicit', SV(L, kind=kind), SV(s, kind=kind)), label=f'_load{suffix}_implicit[{tag}]')
             o.prove(f'{br}: load-direction function == f with swapped arguments [{tag}]', g.t == f.t, pairs=False)
             o.hyps = base
